@@ -162,7 +162,7 @@ def np_array(interp, name, args, kw, st, node):
     return V("arr", x.term, shape=sh, orig=frozenset([FRESH]), labels=x.labels, loc=fresh_id(), extra=tag)
 
 
-@reg("numpy.asarray", "numpy.asanyarray", "numpy.ascontiguousarray", "numpy.real", "numpy.atleast_1d", "numpy.squeeze", "sklearn.utils.validation.as_float_array", "sklearn.utils.as_float_array", "numpy.asfortranarray")
+@reg("numpy.asarray", "numpy.asarray_chkfinite", "numpy.asanyarray", "numpy.ascontiguousarray", "numpy.real", "numpy.atleast_1d", "numpy.squeeze", "sklearn.utils.validation.as_float_array", "sklearn.utils.as_float_array", "numpy.asfortranarray")
 def np_asarray(interp, name, args, kw, st, node):
     x = arrv(args[0])
     if x.kind == "arr":
@@ -296,6 +296,25 @@ def np_ufunc_outer(interp, name, args, kw, st, node):
     row = A.subscript(interp, b, interp.mk_tuple([none, full]), st, node)
     op = {"add": "add", "subtract": "sub", "multiply": "mul"}[name.split(".")[1]]
     return A.binop(interp, op, col, row, st, node)
+
+
+@reg("numpy.tensordot")
+def np_tensordot(interp, name, args, kw, st, node):
+    b = bind(["a", "b", "axes"], args, kw)
+    x, y, ax = arrv(b["a"]), arrv(b["b"]), b.get("axes")
+    sx, sy = shape(x), shape(y)
+    if sx is not None and sy is not None and len(sx) == 2 and len(sy) == 2 and ax is not None:
+        pair = None
+        if ax.has_const and ax.const == 1:
+            pair = (1, 0)
+        elif ax.kind in ("tuple", "list") and ax.items is not None and len(ax.items) == 2 and all(i.has_const and isinstance(i.const, int) for i in ax.items):
+            pair = (ax.items[0].const % 2, ax.items[1].const % 2)
+        if pair is not None:
+            # contraction of one axis of each matrix: a (transposed) matrix product
+            xa = x if pair[0] == 1 else transpose(interp, x)
+            yb = y if pair[1] == 0 else transpose(interp, y)
+            return A.binop(interp, "matmul", xa, yb, st, node)
+    return fresh_arr(callterm(name, args, kw), None, _L(*args, *kw.values()))
 
 
 @reg("numpy.expand_dims")
@@ -1052,7 +1071,12 @@ def np_pinv(interp, name, args, kw, st, node):
 @reg("numpy.linalg.inv", "scipy.linalg.inv")
 def np_inv(interp, name, args, kw, st, node):
     x = arrv(args[0])
-    return fresh_arr(T("inv", x.term), shape(x), x.labels)
+    sh = shape(x)
+    if sh is not None and len(sh) == 3:
+        # a stack of matrices: the inverse of each, i.e. [inv(h) for h in x]
+        lid = "C%d" % (interp.cur().loop_depth + 1)
+        return fresh_arr(T("comp", lid, x.term, T("inv", T("getitem", x.term, T("lv", lid)))), sh, x.labels)
+    return fresh_arr(T("inv", x.term), sh, x.labels)
 
 
 @reg("scipy.linalg.sqrtm")
@@ -1086,6 +1110,12 @@ def np_rank(interp, name, args, kw, st, node):
 @reg("numpy.linalg.slogdet")
 def np_slogdet(interp, name, args, kw, st, node):
     x = arrv(args[0])
+    sh0 = shape(x)
+    if sh0 is not None and len(sh0) == 3:
+        # a stack of matrices: sign and log-determinant of each
+        lid = "C%d" % (interp.cur().loop_depth + 1)
+        el = T("getitem", x.term, T("lv", lid))
+        return interp.mk_tuple([fresh_arr(T("comp", lid, x.term, T("slogdet_sign", el)), (sh0[0],), x.labels), fresh_arr(T("comp", lid, x.term, T("logdet", el)), (sh0[0],), x.labels)])
     return interp.mk_tuple([V("float", T("slogdet_sign", x.term), shape=(), labels=x.labels), V("float", T("logdet", x.term), shape=(), labels=x.labels)])
 
 
